@@ -1043,7 +1043,6 @@ def run(ck):
     ck.cov["outcome_histogram"] = hist
     # ---- module graphs (macros imported from modules).  When the generated obligation about the in-scope collection
     # no longer checks, the whole matrix is searched for the failing input.
-    nviol = len(ck.violations)
     _, mg_seen = mg_run(ck, mg_facts, escalate=not proved_mod)
     ck.cov["distinct_nontrivial"] = len([k for k in seen if k[0] == "hyg" or not k[2]]) + len(mg_seen)
     ck.cov["rule"] = ("matching: distinct (pattern shape with variables anonymised, template kind) among cases whose use "
@@ -1051,8 +1050,10 @@ def run(ck):
                       "distinct (level, require form A->B, require form B->C, provide form, kind of template identifier, "
                       "use context, unit layout, JIT, provide form of the macro); non-trivial = matched use, hygiene "
                       "program or macro use through a module graph")
-    if not (proved and proved_mod) and not ck.violations:
-        ck.unproved()
+    if not (proved and proved_mod):
+        ck.notes.append("proof obligations that no longer check: " + " | ".join(x[:600] for x in ck.proof_failures))
+        if not ck.violations:
+            ck.unproved()
 
 
 def replay(ck, path):
@@ -1911,6 +1912,7 @@ def mg_run(ck, facts, escalate):
                 unresolved += 1
     sobs = mg_eval(ck, singles, os.path.join(root, "single")) if singles else []
     confirmed = {}
+    nreported = 0
     for (i, u, got), s, o in zip(owners, singles, sobs):
         confirmed[(i, u["macro"])] = o[0]
     for i, u, got in fails:
@@ -1929,6 +1931,11 @@ def mg_run(ck, facts, escalate):
             d.update({k: c[k] for k in ("units", "files")})
         bump(hist, "module_graph:" + ("error:" + g2.split(":")[1].split(" ")[0] if ":" in g2 and g2.split(":")[0].endswith("E") else "other-binding"))
         nfail += 1
+        if ck.classify(d) is None:
+            nreported += 1
+            if nreported > 8:        # one replay per failing input; the remaining ones are counted in the histogram
+                bump(hist, "module_graph:unclassified-not-reported")
+                continue
         fid = ck.failing_input(
             "module graph (level %d, A requires B by %s, B provides by %s, template identifier: %s, use context %s, %s, JIT %s): "
             "%s gives %s, definition-site meaning %s" % (
